@@ -47,7 +47,7 @@ Print Assumptions C14_pending_sync_takes_effect.
    processed the UpdateState, before the forward *)
 Theorem C14_sync_releases_blocked_worker : forall s k hb, reach s -> l_worker s = WBusy k ->
   (l_upd s = Some hb \/ l_main s = MFwdSync hb) -> hv_lt k (hb + 1, 0) = true ->
-  ctx_done (l_reg s) k = true /\ exists s', lstep s LSpiReleased = Some s' /\ l_worker s' = WSelect.
+  ctx_done (l_reg s) k = true /\ exists s', lstep s (LSpiReleased ENothing) = Some s' /\ l_worker s' = WSelect.
 Proof. exact spi_released_by_sync. Qed.
 Print Assumptions C14_sync_releases_blocked_worker.
 
@@ -71,7 +71,14 @@ Proof. exact commit_round_leader_proposes. Qed.
 Print Assumptions C14_commit_round_leader_proposes.
 
 Theorem C14_witness :
-  exists s, lrun l_init [LApiSync 0; LMainFwd; LWorkerSync (Some (1, 0)); LApiSync 5; LSpiReleased; LMainFwd; LWorkerSync (Some (6, 0)); LCancel; LMainExit; LSpiReleased; LWorkerExit] = Some s
+  exists s, lrun l_init [LApiSync 0; LMainFwd; LWorkerSync (Some (1, 0)); LApiSync 5; LSpiReleased ENothing; LMainFwd; LWorkerSync (Some (6, 0)); LCancel; LMainExit; LSpiReleased ENothing; LWorkerExit] = Some s
     /\ l_wh s = 6 /\ l_rounds s = [6; 1] /\ l_main s = MExited /\ l_worker s = WExited /\ l_armed s = None.
 Proof. exact loops_witness. Qed.
 Print Assumptions C14_witness.
+
+(* tie to the real runtime: the acceptor that the check evaluates on every node's recorded observation sequence
+   (callbacks, SPI calls, timer arming, elections, exit) accepts every run of the two-goroutine model *)
+From LH Require Import Loops Runtime RuntimeFacts.
+Theorem C14_model_runs_are_accepted : forall ls s, lrun l_init ls = Some s -> rt_check (lobs l_init ls) = true.
+Proof. exact model_runs_are_accepted. Qed.
+Print Assumptions C14_model_runs_are_accepted.
